@@ -74,6 +74,12 @@ Theorem topk_is_window : forall dirs (B out : list elt) o l,
   rows_spec (elt_cmp dirs) snd false B o (Some l) (map snd (firstn l (skipn o out))).
 Proof. exact spec_of_topk. Qed.
 
+(* the heap size limit.saturating_add(offset) of the code (commit 95facdb) versus the exact sum
+   of the model: any two sizes beyond the input give the same rows (the heap never fills) *)
+Theorem topk_heap_size_irrelevant : forall (A : Type) (cmp : A -> A -> comparison) k k' (rows : list A),
+  (length rows < k)%nat -> (length rows < k')%nat -> topk cmp k rows = topk cmp k' rows.
+Proof. exact (@topk_size_irrelevant_l). Qed.
+
 (* ------------------------------------------------------------------ DISTINCT *)
 (* first occurrences: every distinct row exactly once, nothing invented *)
 Theorem distinct_each_row_once : forall (B : list elt),
@@ -177,6 +183,8 @@ Check limit_machine_is_window :
 Check topk_is_window : forall dirs (B out : list elt) o l,
   topk (elt_cmp dirs) (l + o) B = TOk out ->
   rows_spec (elt_cmp dirs) snd false B o (Some l) (map snd (firstn l (skipn o out))).
+Check topk_heap_size_irrelevant : forall (A : Type) (cmp : A -> A -> comparison) k k' (rows : list A),
+  (length rows < k)%nat -> (length rows < k')%nat -> topk cmp k rows = topk cmp k' rows.
 Check distinct_each_row_once : forall (B : list elt),
   NoDup (map snd (dedupe snd row_eqb [] B)) /\
   (forall e, In e (dedupe snd row_eqb [] B) -> In e B) /\
@@ -219,6 +227,7 @@ Print Assumptions sort_executor_compare_mixed_refuted.
 Print Assumptions compare_for_sort_nan_refuted.
 Print Assumptions limit_machine_is_window.
 Print Assumptions topk_is_window.
+Print Assumptions topk_heap_size_irrelevant.
 Print Assumptions distinct_each_row_once.
 Print Assumptions checker_sound.
 Print Assumptions checker_decides_property.
